@@ -586,7 +586,13 @@ class World:
         rows_d, cols_d = list(pd.row_names), list(pd.column_names)
 
         def cell(rows, cols, ij):
-            return (_atom(rng, rows, ij[0]), _atom(rng, cols, ij[1]))
+            c = (_atom(rng, rows, ij[0]), _atom(rng, cols, ij[1]))
+            r = rng.random()
+            if r < 0.07:
+                return [c]                                  # the single well spelt as a one-element list
+            if r < 0.14:
+                return [f'{rows[ij[0]]}:{cols[ij[1]]}']
+            return c
         ssel = dsel = None
         if form == '1->N':
             ij = rng.choice(cells_s)
